@@ -1136,7 +1136,7 @@ Definition reg_all (p : pstate) (id : N) (req : str) (ts : list str) : pstate :=
   fold_left (fun p m => fst (register p id req m)) ts p.
 
 Definition push_line (addr : str) (all : bool) (txt : str) (m : member) : member :=
-  if is_target addr all m then (fst m, (fst (snd m), snd (snd m) ++ [txt])) else m.
+  if is_target addr all m then (fst m, (fst (snd m), if is_nosender (snd (snd m)) then snd (snd m) else snd (snd m) ++ [txt])) else m.
 
 Definition fan_step (id : N) (req : str) (all : bool) (n0 : node) (m : member) : node :=
   let '(name, (r, _)) := m in
@@ -1221,6 +1221,11 @@ Proof.
     pose proof (register_reg_text (n_pending n0) id req name) as Hrt.
     destruct (register (n_pending n0) id req name) as [p' txt]. cbn [fst snd] in *.
     unfold push_member. cbn [n_members n_set_pending]. rewrite Hm, get_app_skip by assumption.
+    destruct (is_nosender q) eqn:Ens.
+    { rewrite (IH (P ++ [(name, (r, q))])).
+      + cbn [n_pending n_addr n_set_members n_set_pending]. rewrite Hrt, <- app_assoc. reflexivity.
+      + cbn [n_members n_set_pending]. rewrite Hm. now rewrite <- app_assoc.
+      + rewrite <- app_assoc. cbn [app]. exact Hnd. }
     rewrite set_app_skip by assumption.
     rewrite (IH (P ++ [(name, (r, q ++ [txt]))])).
     + cbn [n_pending n_addr n_set_members n_set_pending]. rewrite Hrt, <- app_assoc, Htxt. reflexivity.
@@ -1275,7 +1280,7 @@ Theorem fan_out_spec n id req all : NoDup (map fst (n_members n)) ->
      | Some (r, q) =>
          assoc_get String.eqb name (n_members n') =
          Some (r, if negb (String.eqb name (n_addr n)) && (all || role_eqb r Secondary)
-                  then q ++ [line] else q)
+                  then (if is_nosender q then q else q ++ [line]) else q)
      | None => assoc_get String.eqb name (n_members n') = None
      end) /\
   map fst (n_members n') = map fst (n_members n) /\
